@@ -48,6 +48,7 @@ structure Run (m : Machine) where
   st : m.σ
   live : List Nat := []      -- ascending
   seen : List Nat := []
+  gone : Bool := false       -- `manual dropsvc`: every service handle has been dropped; no further request can be made
 
 def insertAsc (l : List Nat) (c : Nat) : List Nat :=
   match l with
@@ -80,6 +81,7 @@ def doOp (m : Machine) (r : Run m) (ws : List String) : IO (Run m) := do
   | "arrive" :: c :: _ =>
       let c := c.toNat?.getD 0
       if r.seen.contains c then IO.println "noop"; return r
+      if r.gone then IO.println "noop"; return { r with seen := c :: r.seen }
       let (r', _) ← applyStep m { r with seen := c :: r.seen, live := insertAsc r.live c } ws
       return r'
   | "poll" :: c :: _ =>
@@ -92,6 +94,9 @@ def doOp (m : Machine) (r : Run m) (ws : List String) : IO (Run m) := do
         let (r', _) ← applyStep m r ws
         return { r' with live := r'.live.filter (· != c) }
       else IO.println "noop"; return r
+  | "manual" :: "dropsvc" :: _ =>
+      let (r', _) ← applyStep m r ws
+      return { r' with gone := true }
   | ["settle"] => settle m r 0
   | ["dropall"] =>
       let mut r := r
